@@ -97,7 +97,10 @@ def _forall(vs, body, patterns=None, dims=None):
                     out.append(z3.substitute(body, *[(v, z3.IntVal(x)) for v, x in zip(vs, vals)]))
                 return z3.And(*out) if out else z3.BoolVal(True)
     if patterns:
-        return z3.ForAll(vs, body, patterns=patterns)
+        try:
+            return z3.ForAll(vs, body, patterns=patterns)
+        except z3.Z3Exception:  # pattern rejected (interpreted head, missing variable): let z3 infer one
+            pass
     return z3.ForAll(vs, body)
 
 
@@ -353,6 +356,7 @@ def reduce_any(a, axis=None):
     ctx.trusted.add("any(axis)")
     out = SymArray(tuple(bshape), lambda idx: A(*idx), "bool")
     out.witness = W
+    out.any_of = (a, red)
     return unwrap0(out)
 
 
